@@ -261,14 +261,19 @@ fn paging_case(rng: &mut StdRng, b: &Value, rep: &mut Report) {
     let mut all: Vec<([u8; 4], u16)> = Vec::new();
     let mut batches = Vec::new();
     let mut lasts: Vec<String> = vec!["0.0.0.0:0".to_string()];
+    // half of the cases draw from a tiny pool of hosts, so that consecutive pages end on the same host with different
+    // ports, or on 0.0.0.0 with a non-zero port / a real host with port 0 (none of which is the terminator)
+    let pool = rng.gen_bool(0.5);
     for (i, n) in lens.iter().enumerate() {
         let mut page = Vec::new();
         for _ in 0 .. *n {
             // any address but the terminator; consecutive pages never end with the address they were seeded with
             let a = loop {
-                let ip: [u8; 4] = [rng.gen(), rng.gen(), rng.gen(), rng.gen()];
-                let port: u16 = rng.gen();
-                if (ip != [0, 0, 0, 0] || port != 0) && all.last() != Some(&(ip, port)) {
+                let ip: [u8; 4] = if pool { [[10, 0, 0, 9], [10, 0, 0, 9], [0, 0, 0, 0], [192, 168, 1, 1]][rng.gen_range(0 .. 4)] } else { [rng.gen(), rng.gen(), rng.gen(), rng.gen()] };
+                let port: u16 = if pool { [0u16, 1, 27015, 27016, 65535][rng.gen_range(0 .. 5)] } else { rng.gen() };
+                // (a page that ends with the very address it was seeded with would be the server echoing the seed: not a page sequence)
+                let seed_text = format!("{}.{}.{}.{}:{}", ip[0], ip[1], ip[2], ip[3], port);
+                if (ip != [0, 0, 0, 0] || port != 0) && all.last() != Some(&(ip, port)) && lasts.last() != Some(&seed_text) {
                     break (ip, port);
                 }
             };
